@@ -81,7 +81,7 @@ def q1_one_queue_one_consumer(ctx, rep):
                   "receiver half of the dispatch queue is moved into %s" % short(cl.path),
                   "receiver half is captured by %s (%s), not moved into the closure handed to the pool" % (caps[0][0], caps[0][2]))
     # the closure is handed to exactly one execute call, outside any loop
-    execs = [s for s in ctx.prog.sites(b) if s.ck in POOL_EXEC or s.ck in THREAD_SPAWN]
+    execs = [s for s in ctx.prog.sites(b) if s.ck in POOL_EXEC or s.ck in THREAD_SPAWN or (s.body.path == ex_site.body.path and s.bb == ex_site.bb)]
     n = 0
     for s in execs:
         for ai in range(len(s.term["args"])):
